@@ -280,8 +280,8 @@ inductive VPc
   | wheld (op : String) (res : String)           -- write lock held, effect done
   | incChild (child : Nat)                       -- `inc` through a returned handle
   | collecting (keys : List (String × Nat)) (reads : List (String × UInt64 × List Nat))   -- value reads so far: location, value, the children it can be
-  | rmRheld (op : String) (done : Option String)  -- `rm` pre-check: read lock held; `some rv` = key absent, the remove is committed with result `rv`
-  | rmNeedW (op : String)                         -- `rm` pre-check found the key, read lock released; next: write lock
+  | rmRheld (op : String) (done : Option String)  -- `rm` / `reset` pre-check: read lock held; `some rv` = key absent / map empty, the remove / reset is committed with result `rv`
+  | rmNeedW (op : String)                         -- `rm` / `reset` pre-check found the key / a non-empty map, read lock released; next: write lock
 deriving Repr
 
 /-- one committed operation: the thread, (ghost) the index of the call of that thread whose step
@@ -368,6 +368,17 @@ def vStep (s : VSt) (e : Ev) : Except String VSt :=
             let rv := match r with | .ok => "ok" | .err => "err" | _ => ""
             .ok (setTh { s1 with lockR := e.tid :: s1.lockR } { th with pc := some (.rmRheld op (some rv)) })
           | some _ => .ok (setTh { s with lockR := e.tid :: s.lockR } { th with pc := some (.rmRheld op none) })
+        else if n == "reset" && e.k == "R" then
+          -- `reset` may first check under the READ lock whether the map is empty: a reset of an empty vector takes effect
+          -- here - the specification's reset of an empty map changes nothing -, the call is complete once the read lock is
+          -- released and no write lock is taken; a non-empty map commits nothing yet
+          guard (e.loc == "lk") "reset: expected read lock on lk" <|
+          guard s.lockW.isNone "read lock granted while a writer holds the lock" <|
+          if s.spec.map.isEmpty then
+            let (s1, r) := vEff s e.tid th.idx .reset
+            let rv := match r with | .ok => "ok" | .err => "err" | _ => ""
+            .ok (setTh { s1 with lockR := e.tid :: s1.lockR } { th with pc := some (.rmRheld op (some rv)) })
+          else .ok (setTh { s with lockR := e.tid :: s.lockR } { th with pc := some (.rmRheld op none) })
         else if n == "rm" || n == "reset" then
           guard (e.k == "X" && e.loc == "lk") s!"{n}: expected write lock" <|
           guard (s.lockW.isNone && s.lockR.isEmpty) "write lock granted while the lock is held" <|
@@ -425,17 +436,18 @@ def vStep (s : VSt) (e : Ev) : Except String VSt :=
             let strs := sortKeys (asg.map fun cv => (((ks.find? (·.2 == cv.1)).map (·.1)).getD "?") ++ "=" ++ toString cv.2.toNat)
             .ok (setTh { s with lockR := s.lockR.erase e.tid } { th with pc := none, retv := some ("+".intercalate strs) })
       | .rmRheld op done =>
-        guard (e.k == "r" && e.loc == "lk") "rm: expected read unlock" <|
+        guard (e.k == "r" && e.loc == "lk") "rm / reset: expected read unlock" <|
         let s1 := { s with lockR := s.lockR.erase e.tid }
         match done with
         | some rv => .ok (setTh s1 { th with pc := none, retv := some rv })
         | none => .ok (setTh s1 { th with pc := some (.rmNeedW op) })
       | .rmNeedW op =>
         -- remove under the write lock: the key is looked up AGAIN (`remove(..).is_some()` decides the outcome; a
-        -- concurrent remove / reset in the gap makes it report absent)
-        guard (e.k == "X" && e.loc == "lk") "rm: expected write lock after the pre-check found the key" <|
+        -- concurrent remove / reset in the gap makes it report absent); reset under the write lock: the map is cleared,
+        -- whatever it holds by then
+        guard (e.k == "X" && e.loc == "lk") "rm / reset: expected write lock after the pre-check found something to remove" <|
         guard (s.lockW.isNone && s.lockR.isEmpty) "write lock granted while the lock is held" <|
-        let (s1, r) := vEff s e.tid th.idx (.remove (key op))
+        let (s1, r) := vEff s e.tid th.idx (if opName op == "reset" then .reset else .remove (key op))
         let rv := match r with | .ok => "ok" | .err => "err" | _ => ""
         .ok (setTh { s1 with lockW := some e.tid } { th with pc := some (.wheld op rv) })
 
